@@ -86,8 +86,12 @@ def generate(rng, tier):
         far_lo = 0x1000000000
         fd = [dict(start=0x100, len=0x400, rows=[(0, suites.std_row(arch, "frameless", 5))])]
         s.module_dwarf("MF", far_lo, far_lo + (1 << 33), far_lo, 0, ["hdr", "eh", "debug"][rep % 3], fd, rng)
+        # the same Mach-O image registered WITHOUT its text bytes: a first frame inside a function that has no unwind
+        # info (opcode 0) is still a frameless leaf
+        mm2_lo = 0x580000
+        mt.module_macho(s, "MM2", mprog, mm2_lo, 0x100000000, rng, with_text=False)
         s.add("new U")
-        for mid in ["MN", "MP", "MP0", "MM", "MF"] + ["MB%d" % i for i in range(mi)] + ["MG%d" % j for j in range(3)]:
+        for mid in ["MN", "MP", "MP0", "MM", "MM2", "MF"] + ["MB%d" % i for i in range(mi)] + ["MG%d" % j for j in range(3)]:
             s.add("add U " + mid)
         probes = [("nomodule", a) for a in (0x5000, 0x50, 0xfffff, 0x101000, 0x9999999)]
         probes += [("nodata", 0x100000 + rng.below(0x1000)) for _ in range(3)]
@@ -106,9 +110,13 @@ def generate(rng, tier):
         # have said about it: images with data, with nothing mapped behind them
         probes += [("nomodule", 0x300000 + 0x10000 * j + 0x1000) for j in range(3)]
         probes += [("nomodule", pe_lo + 0x10000), ("nomodule", mm_lo + mprog["end"] + 0x100)]
+        for f in mprog["funcs"]:
+            if f.opcode == 0 and not f.dwarf and f.shape == "null-leaf":
+                probes += [("macho-null", mm2_lo + f.start + o) for o in (0, 1, f.length - 1)]
+                probes += [("macho-null", mm_lo + f.start + o) for o in (1,)]
         probes += [("toofar", far_lo + (1 << 32) + a) for a in (0x100, 0x180, 0x4ff, (1 << 32) - 0x1000 + 0x100)]
         for reason, a in probes:
-            for first in (1, 0):
+            for first in ((1,) if reason == "macho-null" else (1, 0)):
                 for _ in range(2):
                     sp = base + 8 * rng.range(0, 40)
                     fp = rng.choice([base + 8 * rng.range(0, 90), 0, base + 8 * rng.range(0, 90), base + 4])
@@ -206,7 +214,7 @@ def judge(script, impl):
         o = vlib.outcome(line); rg = vlib.regs_of(line)
         reason, first = m["reason"], m["first"]
         sp, fp, lr = m["sp"], m["fp"], m["lr"]
-        if (reason.startswith("gap") and first) or reason == "pe-noentry" or (reason == "macho-outside" and first):
+        if (reason.startswith("gap") and first) or reason == "pe-noentry" or (reason in ("macho-outside", "macho-null") and first):
             exp = expect_leaf(arch, sp, fp, lr, memS)
         else:
             exp = expect_fp(arch, sp, fp, lr, memS)
